@@ -34,9 +34,6 @@ prop('C15', prefix=['c15'],
 prop('C22', prefix=['c22'],
      bounds='all 16384 column numbers (one symbolic i32); every ASCII column string of length 0..=4',
      outside='A1/R1C1 printing+parsing of whole references, sheet-name quoting vs the lexer, non-ASCII text')
-prop('C27', prefix=['c27'],
-     bounds='<=2 column descriptors (quick) / <=3 (thorough), <=2 row records; one mutator call from an arbitrary well-formed state',
-     outside='sheet names, style/shared-string/formula indices, spill bookkeeping, defined names, cells inside the grid')
 prop('C29', prefix=['c29'],
      bounds='<=2 column descriptors (quick) / <=3 (thorough), <=2 row records; one setter call from an arbitrary well-formed state; '
             'widths/heights any finite f64 in 0..=1e6',
@@ -45,12 +42,6 @@ prop('C33', prefix=['c33'],
      bounds='row/column/position/count/offset any i32 inside the grid, sheet ids any u32',
      outside='links (displace_links closures inside Model::insert_*/delete_*/move_*), CF rule formulas (parser), sqref strings, '
              'clear-removes-link and its undo, cut/paste orchestration')
-prop('C34', prefix=['c34'],
-     bounds='reference state machine: all 4x... states; endpoint text: every ASCII string of length <=4 (quick) / <=6 (thorough)',
-     outside='the real tokenizer (which spans the cursor touches), non-ASCII text, sheet prefixes')
-prop('C28', prefix=['c28'],
-     bounds='sheet counts and indices any u32',
-     outside='everything except the selected-sheet arithmetic on sheet move')
 
 
 def log(*a):
@@ -227,6 +218,9 @@ def conclude(pid, tier, seed, b, names, res, t0, cfg):
                 want = [l for l in trace_lines(p.get('trace', [])) if l != 'panic']
                 st = p['status']
                 ok = (lines == want)
+                if st == 'check-failed':
+                    # the engine ends a path at a check that cannot pass; the native run goes on
+                    ok = (lines[:len(want)] == want)
                 if st == 'ok':
                     ok = ok and status == 'ok'
                 elif st == 'panic':
